@@ -63,12 +63,16 @@ type item struct {
 	open   bool // first half of `var a, b = x, y`, waiting for the second
 }
 
-var indirectKinds = []string{"func", "chain", "method", "ptrmethod", "methodval", "methodexpr", "funcref", "cycle", "cycle", "cycle", "recvcall"}
+var indirectKinds = []string{"func", "chain", "method", "ptrmethod", "methodval", "methodexpr", "funcref", "cycle", "cycle", "cycle", "recvcall", "mapkeyfn"}
 
 // receiverKinds: the variable is read by the receiver operand of a method call
 // or method value written in the initialiser itself (a reference as visible as
 // a direct one, but reached through the operand of a method selector).
-var receiverKinds = []string{"recvconv", "recvval", "recvlit", "recvptr", "recvindex"}
+//
+// mapkey, mapval, structval: the variable is read by the key or by the value
+// of a keyed element of a composite literal written in the initialiser
+// (mapkeyfn: in the body of a function called by the initialiser).
+var receiverKinds = []string{"recvconv", "recvval", "recvlit", "recvptr", "recvindex", "mapkey", "mapkey", "mapval", "structval"}
 
 var sevenBits = rapid.SliceOfN(rapid.Bool(), 7, 7)
 
@@ -303,6 +307,19 @@ func (g *gen) drawTerms(p *gpkg) {
 			}
 			v.terms = append(v.terms, tm)
 		}
+		if pct(t, "fieldname") < 12 {
+			// a keyed struct literal whose field is named like another variable of
+			// the package (declared anywhere): not a reference to that variable
+			var cand []int
+			for j, w := range p.vars {
+				if j != i && !w.blank {
+					cand = append(cand, j)
+				}
+			}
+			if len(cand) > 0 {
+				v.terms = append(v.terms, gterm{dep: -1, kind: "fieldname", xvar: cand[rapid.IntRange(0, len(cand)-1).Draw(t, "fieldvar")], k: rapid.IntRange(1, 5).Draw(t, "fk")})
+			}
+		}
 		if len(p.imports) > 0 && pct(t, "xref") < 25 {
 			q := p.imports[rapid.IntRange(0, len(p.imports)-1).Draw(t, "xpkg")]
 			tm := gterm{dep: -1, xpkg: q, kind: "xsum"}
@@ -349,7 +366,7 @@ func (g *gen) drawDeclOrder(p *gpkg) {
 
 func visibleKind(k string) bool {
 	switch k {
-	case "direct", "closure", "recvconv", "recvval", "recvlit", "recvptr", "recvindex":
+	case "direct", "closure", "recvconv", "recvval", "recvlit", "recvptr", "recvindex", "mapkey", "mapval", "structval":
 		return true
 	}
 	return false
@@ -652,6 +669,11 @@ func (g *gen) render(p *gpkg) {
 				parts = append(parts, q.name+".Sum()")
 				uses["PKGROOT/"+q.name] = true
 				continue
+			case "fieldname":
+				fn := p.vars[tm.xvar].name
+				g.classes["edge:none-struct-field-named-like-a-variable"] = true
+				parts = append(parts, fmt.Sprintf("struct{ %s int }{%s: %d}.%s", fn, fn, tm.k, fn))
+				continue
 			}
 			r := g.ref(p, tm.dep)
 			g.classes["edge:"+tm.kind] = true
@@ -663,6 +685,18 @@ func (g *gen) render(p *gpkg) {
 				parts = append(parts, r)
 			case "closure":
 				parts = append(parts, fmt.Sprintf("func() int { return %s + %d }()", r, tm.k))
+			case "mapkey":
+				need["keysum"] = true
+				parts = append(parts, fmt.Sprintf("keysum(map[int]int{%s: %d})", r, tm.k))
+			case "mapval":
+				parts = append(parts, fmt.Sprintf("map[int]int{%d: %s}[%d]", tm.k, r, tm.k))
+			case "structval":
+				parts = append(parts, fmt.Sprintf("struct{ n int }{n: %s}.n", r))
+			case "mapkeyfn":
+				need["keysum"] = true
+				name := g.helperName("f")
+				helpers = append(helpers, item{text: fmt.Sprintf("func %s() int { return keysum(map[int]int{%s: %d}) }\n", name, r, tm.k)})
+				parts = append(parts, name+"()")
 			case "cycle":
 				parts = append(parts, cycleCall(tm.dep, r))
 			case "func", "funcref":
@@ -837,6 +871,9 @@ func (g *gen) render(p *gpkg) {
 	}
 	if need["call"] {
 		g.place(p, item{text: "func call(f func() int) int { return f() }\n"})
+	}
+	if need["keysum"] {
+		g.place(p, item{text: "func keysum(m map[int]int) int {\n\ts := 0\n\tfor k, v := range m {\n\t\ts += k + v\n\t}\n\treturn s\n}\n"})
 	}
 	// init functions
 	var mutable []int
